@@ -253,9 +253,23 @@ pub(crate) fn wrap_single_line_slow_path<'a>(
 
     let mut idx = 0;
     for words in wrapped_words {
+        // The result is owned if we have indentation, otherwise we
+        // can simply borrow an empty string.
+        let mut result = if lines.is_empty() && !options.initial_indent.is_empty() {
+            Cow::Owned(options.initial_indent.to_owned())
+        } else if !lines.is_empty() && !options.subsequent_indent.is_empty() {
+            Cow::Owned(options.subsequent_indent.to_owned())
+        } else {
+            // We can use an empty string here since string
+            // concatenation for `Cow` preserves a borrowed value when
+            // either side is empty.
+            Cow::from("")
+        };
+
         let last_word = match words.last() {
             None => {
-                lines.push(Cow::from(""));
+                // An empty line still gets its indentation.
+                lines.push(result);
                 continue;
             }
             Some(word) => word,
@@ -269,19 +283,6 @@ pub(crate) fn wrap_single_line_slow_path<'a>(
             .map(|word| word.len() + word.whitespace.len())
             .sum::<usize>()
             - last_word.whitespace.len();
-
-        // The result is owned if we have indentation, otherwise we
-        // can simply borrow an empty string.
-        let mut result = if lines.is_empty() && !options.initial_indent.is_empty() {
-            Cow::Owned(options.initial_indent.to_owned())
-        } else if !lines.is_empty() && !options.subsequent_indent.is_empty() {
-            Cow::Owned(options.subsequent_indent.to_owned())
-        } else {
-            // We can use an empty string here since string
-            // concatenation for `Cow` preserves a borrowed value when
-            // either side is empty.
-            Cow::from("")
-        };
 
         result += &line[idx..idx + len];
 
